@@ -250,7 +250,11 @@ def random_arrays(draw, nmin=1, nmax=5):
             mask = [1] * size
         else:
             mask = draw(st.lists(st.sampled_from([0, 0, 0, 1]), min_size=size, max_size=size))
-        arrays.append({"data": data, "mask": mask, "dtype": "float64"})
+        spec = {"data": data, "mask": mask, "dtype": "float64"}
+        if draw(st.integers(0, 4)) == 0:
+            # a crisp layer (fully false / neutral / fully true) stored with an integer element type, among graded ones
+            spec = {"data": [int(round(x)) for x in data], "mask": mask, "dtype": draw(st.sampled_from(["int64", "int32", "int8"]))}
+        arrays.append(spec)
     return arrays
 
 
@@ -259,6 +263,10 @@ def random_op_case(draw):
     arrays = draw(random_arrays())
     n = len(arrays)
     ops = [o for o in OPS if (o != "FuzzyNot" or n == 1) and (o != "FuzzyXOr" or n >= 2)]
+    if any(a["dtype"] != "float64" for a in arrays):
+        # integer-typed crisp layers go to the operators that select or negate values; the two averaging operators
+        # divide in place and reject integer element types on the pinned tree (no built-in producer delivers them)
+        ops = [o for o in ops if o not in ("FuzzyUnion", "FuzzyWeightedUnion")]
     op = draw(st.sampled_from(ops))
     params = {}
     if op == "FuzzyWeightedUnion":
@@ -275,7 +283,7 @@ def random_op_case(draw):
 
 @st.composite
 def random_laws_case(draw):
-    arrays = draw(random_arrays(1, 4))
+    arrays = [dict(a, data=[float(x) for x in a["data"]], dtype="float64") for a in draw(random_arrays(1, 4))]  # the laws involve the averaging operators
     n = len(arrays)
     w = draw(st.lists(st.integers(1, 7), min_size=n, max_size=n))
     return {"arrays": arrays, "n": n, "weights": w}
